@@ -590,17 +590,39 @@ class InboundStream:
     def prune_chunks(self, tsn: int) -> int:
         """
         Prune chunks up to the given TSN.
+
+        Complete messages are kept: they were acknowledged and are only
+        waiting for their turn to be delivered.
         """
-        pos = -1
+        kept: list[DataChunk] = []
         size = 0
-        for i, chunk in enumerate(self.reassembly):
-            if uint32_gte(tsn, chunk.tsn):
-                pos = i
-                size += len(chunk.user_data)
-            else:
+        pos = 0
+        while pos < len(self.reassembly):
+            chunk = self.reassembly[pos]
+            if uint32_gt(chunk.tsn, tsn):
+                kept += self.reassembly[pos:]
                 break
 
-        self.reassembly = self.reassembly[pos + 1 :]
+            # look for a complete message starting with this chunk
+            end = None
+            if chunk.flags & SCTP_DATA_FIRST_FRAG:
+                expected_tsn = chunk.tsn
+                for i in range(pos, len(self.reassembly)):
+                    if self.reassembly[i].tsn != expected_tsn:
+                        break
+                    if self.reassembly[i].flags & SCTP_DATA_LAST_FRAG:
+                        end = i
+                        break
+                    expected_tsn = tsn_plus_one(expected_tsn)
+
+            if end is not None:
+                kept += self.reassembly[pos : end + 1]
+                pos = end + 1
+            else:
+                size += len(chunk.user_data)
+                pos += 1
+
+        self.reassembly = kept
         return size
 
 
@@ -1160,6 +1182,11 @@ class RTCSctpTransport(AsyncIOEventEmitter):
         self._sack_duplicates = list(filter(is_obsolete, self._sack_duplicates))
         self._sack_misordered = set(filter(is_obsolete, self._sack_misordered))
 
+        # prune obsolete chunks, i.e. the ones skipped by this FORWARD TSN;
+        # chunks received beyond that point belong to live messages
+        for stream_id, inbound_stream in self._inbound_streams.items():
+            self._advertised_rwnd += inbound_stream.prune_chunks(chunk.cumulative_tsn)
+
         # update reassembly
         for stream_id, stream_seq in chunk.streams:
             inbound_stream = self._get_inbound_stream(stream_id)
@@ -1169,11 +1196,6 @@ class RTCSctpTransport(AsyncIOEventEmitter):
             for message in inbound_stream.pop_messages():
                 self._advertised_rwnd += len(message[2])
                 await self._receive(*message)
-
-        # prune obsolete chunks, i.e. the ones skipped by this FORWARD TSN;
-        # chunks received beyond that point belong to live messages
-        for stream_id, inbound_stream in self._inbound_streams.items():
-            self._advertised_rwnd += inbound_stream.prune_chunks(chunk.cumulative_tsn)
 
     async def _receive_sack_chunk(self, chunk: SackChunk) -> None:
         """
